@@ -718,12 +718,6 @@ let rec skipn n0 l =
              | [] -> []
              | _ :: l0 -> skipn n1 l0)
 
-(** val seq : nat -> nat -> nat list **)
-
-let rec seq start = function
-| O -> []
-| S len0 -> start :: (seq (S start) len0)
-
 (** val repeat : 'a1 -> nat -> 'a1 list **)
 
 let rec repeat x = function
@@ -1100,10 +1094,16 @@ let rec last_opt = function
              | [] -> Some x
              | _ :: _ -> last_opt r)
 
+(** val nseq_from : n -> nat -> n list **)
+
+let rec nseq_from start = function
+| O -> []
+| S m -> start :: (nseq_from (N.succ start) m)
+
 (** val nseq : n -> n list **)
 
 let nseq n0 =
-  map N.of_nat (seq O (N.to_nat n0))
+  nseq_from N0 (N.to_nat n0)
 
 (** val popcP : positive -> n **)
 
@@ -3981,14 +3981,14 @@ let rec wm_layers_build c k alph_width fuel depth zeros ones layers =
 
 (** val wm_new : cfg -> bkind -> n list -> wavelet option res **)
 
-let wm_new c k seq0 = match seq0 with
+let wm_new c k seq = match seq with
 | [] -> Ok None
 | _ :: _ ->
-  let mx = fold_left N.max seq0 N0 in
+  let mx = fold_left N.max seq N0 in
   bind (add0 c mx (Npos XH)) (fun alph_size ->
     bind (needed_bits c alph_size) (fun alph_width ->
       bind
-        (wm_layers_build c k alph_width (N.to_nat alph_width) N0 seq0 [] [])
+        (wm_layers_build c k alph_width (N.to_nat alph_width) N0 seq [] [])
         (fun layers -> Ok (Some { wm_layers = layers; wm_alph_size =
         alph_size }))))
 
@@ -6304,15 +6304,25 @@ let step_efb c m u mm acc code args data =
                      | XH ->
                        let vs = nth O data [] in
                        let go =
-                         let rec go acc0 = function
-                         | [] -> (acc0, true)
+                         let rec go racc last cnt = function
+                         | [] -> (racc, true)
                          | v :: r ->
-                           if efb_accepts u mm acc0 v
-                           then go (app acc0 (v :: [])) r
-                           else (acc0, false)
+                           if (&&) ((&&) (N.leb last v) (N.ltb v u))
+                                (N.ltb cnt mm)
+                           then go (v :: racc) v (N.add cnt (Npos XH)) r
+                           else (racc, false)
                          in go
                        in
-                       let (acc', ok) = go acc vs in
+                       let go0 = fun acc0 vs0 ->
+                         let (racc, ok) =
+                           go (rev_append acc0 [])
+                             (match last_opt acc0 with
+                              | Some l -> l
+                              | None -> N0) (lenN acc0) vs0
+                         in
+                         ((rev_append racc []), ok)
+                       in
+                       let (acc', ok) = go0 acc vs in
                        (match efb_extend c m vs with
                         | Ok a ->
                           let (m', b) = a in
